@@ -454,6 +454,13 @@ impl<RW: QueueRW<T>, T> MultiQueue<RW, T> {
         }
     }
 
+    /// The publication tag of the slot that holds (or will hold) position `count`
+    #[inline(always)]
+    fn tag_at(&self, count: usize) -> &AtomicUsize {
+        let index = (count & (self.capacity as usize - 1)) as isize;
+        unsafe { &(*self.data.offset(index)).wraps }
+    }
+
     fn reload_tail_multi(&self, tail_cache: usize, count: usize) -> usize {
         if let Some(max_diff_from_head) = self.tail.get_max_diff(count) {
             let current_tail = CountedIndex::get_previous(count, max_diff_from_head);
@@ -544,11 +551,13 @@ impl<RW: QueueRW<T>, T> InnerRecv<RW, T> {
             match self.queue.try_recv(&self.reader) {
                 Ok(v) => return Ok(v),
                 Err((_, TryRecvError::Disconnected)) => return Err(RecvError),
-                Err((pt, TryRecvError::Empty)) => {
+                Err((_, TryRecvError::Empty)) => {
+                    // Wait on the slot of the position that is waited for: on a shared
+                    // stream the failed attempt may have looked at an older position.
                     let count = self.reader.load_count(Relaxed);
-                    unsafe {
-                        self.queue.waiter.wait(count, &*pt, &self.queue.writers);
-                    }
+                    self.queue
+                        .waiter
+                        .wait(count, self.queue.tag_at(count), &self.queue.writers);
                 }
             }
         }
@@ -573,12 +582,12 @@ impl<RW: QueueRW<T>, T> InnerRecv<RW, T> {
             match self.queue.try_recv_view(op, &self.reader) {
                 Ok(v) => return Ok(v),
                 Err((o, _, TryRecvError::Disconnected)) => return Err((o, RecvError)),
-                Err((o, pt, TryRecvError::Empty)) => {
+                Err((o, _, TryRecvError::Empty)) => {
                     op = o;
                     let count = self.reader.load_count(Relaxed);
-                    unsafe {
-                        self.queue.waiter.wait(count, &*pt, &self.queue.writers);
-                    }
+                    self.queue
+                        .waiter
+                        .wait(count, self.queue.tag_at(count), &self.queue.writers);
                 }
             }
         }
@@ -669,14 +678,10 @@ impl<RW: QueueRW<T>, T> FutInnerRecv<RW, T> {
             match rval {
                 Ok(v) => return Ok(v),
                 Err((_, TryRecvError::Disconnected)) => return Err(RecvError),
-                Err((pt, TryRecvError::Empty)) => {
+                Err((_, TryRecvError::Empty)) => {
                     let count = self.reader.reader.load_count(Relaxed);
-                    unsafe {
-                        self.reader
-                            .queue
-                            .waiter
-                            .wait(count, &*pt, &self.reader.queue.writers);
-                    }
+                    let queue = &self.reader.queue;
+                    queue.waiter.wait(count, queue.tag_at(count), &queue.writers);
                 }
             }
         }
@@ -837,12 +842,16 @@ impl<RW: QueueRW<T>, T> Stream for &FutInnerRecv<RW, T> {
                     return Ok(Async::Ready(Some(msg)));
                 }
                 Err((_, TryRecvError::Disconnected)) => return Ok(Async::Ready(None)),
-                Err((pt, _)) => {
+                Err((_, _)) => {
                     // The failed attempt may have briefly pinned a slot and made a
                     // concurrent Sink send see the queue as full and park.
                     self.prod_wait.notify_all();
                     let count = self.reader.reader.load_count(Relaxed);
-                    if unsafe { self.wait.fut_wait(count, &*pt, &self.reader.queue.writers) } {
+                    let queue = &self.reader.queue;
+                    if self
+                        .wait
+                        .fut_wait(count, queue.tag_at(count), &queue.writers)
+                    {
                         return Ok(Async::NotReady);
                     }
                 }
@@ -876,9 +885,13 @@ impl<RW: QueueRW<T>, R, F: for<'r> FnMut(&T) -> R, T> Stream for FutInnerUniRecv
                     return Ok(Async::Ready(Some(msg)));
                 }
                 Err((_, _, TryRecvError::Disconnected)) => return Ok(Async::Ready(None)),
-                Err((_, pt, _)) => {
+                Err((_, _, _)) => {
                     let count = self.reader.reader.load_count(Relaxed);
-                    if unsafe { self.wait.fut_wait(count, &*pt, &self.reader.queue.writers) } {
+                    let queue = &self.reader.queue;
+                    if self
+                        .wait
+                        .fut_wait(count, queue.tag_at(count), &queue.writers)
+                    {
                         return Ok(Async::NotReady);
                     }
                 }
